@@ -5,7 +5,8 @@ from matchingproblems.solver.fileIO import _get_simple_pref_list_and_ranks
 
 RULE = ('exhaustive: every list length n <= bound (quick 8, thorough 12) and every one of the 2^n tie-decision vectors, '
         'entries = a rotation of 1..n; real create_string_pref then real _get_simple_pref_list_and_ranks; '
-        'non-trivial = n >= 2 and at least one decision set')
+        'non-trivial = n >= 2 and at least one decision set; plus 60 (quick) / 600 (thorough) random 2- and 3-agent instances written by the real '
+        'create_instance and read back by the real import_model, one side tie-free in a third of them')
 
 
 def cases(rng, tier):
@@ -15,12 +16,67 @@ def cases(rng, tier):
             r = (sum(ties) * 7 + n) % max(n, 1)
             pref = [((i + r) % n) + 1 + 10 * (i % 3 == 0) for i in range(n)]
             yield 'writer_reader', dict(pref=pref, ties=list(ties))
+    # whole files: every list is written by the real create_instance with ITS OWN tie vector and read back by the real import_model
+    import oracles as O
+    for t in range(60 if tier == 'quick' else 600):
+        na = 3 if t % 2 else 2
+        I = O.gen_instance(rng, rng.randint(1, 4), rng.randint(1, 4), rng.randint(1, 4), na=na, twopl=True, maxlen=4, maxq=2)
+        if t % 3 == 0:      # one side without any tie, the other side tied (a vector of one side must not govern the other side)
+            side = 'rows' if t % 2 else 'llists'
+            I[side] = [[l, [0] * len(l)] for l, _ in I[side]]
+        yield 'file_round_trip', dict(I=I)
 
 
-def nontrivial(kind, inp): return len(inp['pref']) >= 2 and any(inp['ties'])
+def nontrivial(kind, inp):
+    if kind == 'file_round_trip': return any(any(t) for _, t in inp['I']['rows']) or any(any(t) for _, t in inp['I']['llists'])
+    return len(inp['pref']) >= 2 and any(inp['ties'])
+
+
+def dense(ties):
+    n = len(ties); out = []; cur = 1
+    for j in range(n):
+        out.append(cur)
+        if not (ties[j] and j < n - 1): cur += 1
+    return out
+
+
+def file_round_trip(I):
+    import tempfile, os
+    from matchingproblems.generator.generator_spa import Generator_spa
+    from matchingproblems.generator.generator_ha_sm_hr import Generator_ha_sm_hr
+    from matchingproblems.solver import fileIO
+    from matchingproblems.solver.enums import Instance_options
+    F = [l for l, _ in I['rows']]; FT = [t for _, t in I['rows']]; S = [l for l, _ in I['llists']]; ST = [t for _, t in I['llists']]
+    try:
+        if I['na'] == 3:
+            text = Generator_spa.create_instance(None, I['nS'], I['nP'], I['nL'], F, FT, I['lect'], I['plq'], I['puq'], S, ST, I['llq'], I['tgt'], I['luq'], 'info\n')
+        else:
+            text = Generator_ha_sm_hr.create_instance(None, I['nS'], I['nP'], F, FT, S, ST, I['plq'], I['puq'], 'info\n')
+    except Exception as ex:
+        return dict(expected='instance text', observed='create_instance raised %r' % ex, function='create_instance', what='raise')
+    d = tempfile.mkdtemp(prefix='c13_'); fn = os.path.join(d, '0.txt')
+    try:
+        open(fn, 'w').write(text)
+        try: m = fileIO.import_model(fn, {Instance_options.NUMAGENTS: I['na'], Instance_options.TWOPL: True, Instance_options.PC: False})
+        except Exception as ex:
+            return dict(expected='model', observed='import_model raised %r' % ex, function='import_model', what='raise', text=text)
+    finally:
+        try: os.remove(fn); os.rmdir(d)
+        except OSError: pass
+    for i, row in enumerate(m.pairs):
+        if [p.projectID for p in row] != F[i] or [p.rank_student for p in row] != dense(FT[i]):
+            return dict(expected=dict(list=F[i], ranks=dense(FT[i])), observed=dict(list=[p.projectID for p in row], ranks=[p.rank_student for p in row]),
+                        function='create_instance / import_model', what='first-side ties of agent %d' % (i + 1), text=text)
+        for p in row:
+            k = p.lecturerID - 1; pos = S[k].index(p.studentID); want = dense(ST[k])[pos]
+            if p.rank_lecturer != want:
+                return dict(expected=want, observed=p.rank_lecturer, function='create_instance / import_model',
+                            what='second-side ties: rank of %d on the list of %d' % (p.studentID, k + 1), text=text)
+    return None
 
 
 def run_case(kind, inp):
+    if kind == 'file_round_trip': return file_round_trip(inp['I'])
     pref, ties = inp['pref'], inp['ties']; n = len(pref)
     try:
         toks = create_string_pref(list(pref), list(ties))
